@@ -94,12 +94,15 @@ class Tally:
         self.marks = set()
         self.types = set()
         self.maxlen = {}
+        self.strs = set()
+        self.toktypes = set()
 
     def add(self, scn):
         ast = scn["ast"]
         self.kinds[ast["k"]] = self.kinds.get(ast["k"], 0) + 1
         self.forms.add(scn["form"])
         for t in scn["toks"]:
+            self.toktypes.add(t[0])
             if t[2]:
                 self.marks.add(t[2] + ":" + t[1])
 
@@ -110,6 +113,8 @@ class Tally:
                     self.nodes.add(k)
                 if k == "cmp":
                     self.ops.add(o["op"])
+                if k == "str":
+                    self.strs.add(o["s"])
                 if "jt" in o:
                     self.jts.add(o["jt"])
                 if "dir" in o:
@@ -121,8 +126,18 @@ class Tally:
                         self.maxlen[name] = max(self.maxlen.get(name, 0), len(o[name]))
         walk(ast, f)
 
-    def missing(self):
+    def missing(self, token_texts):
         m = []
+        # string literals whose content, without the quotes, is a token of the dialect (sql.Tokens, from the harness)
+        look = {x for x in self.strs if x.upper() in token_texts}
+        if not any(x.isalpha() for x in look):
+            m.append("string literal spelling a keyword")
+        if not any(not x.isalnum() for x in look):
+            m.append("string literal spelling an operator or punctuation")
+        if "" not in self.strs:
+            m.append("empty string literal")
+        if "QID" not in self.toktypes:
+            m.append("delimited identifier")
         for k in STMT_KINDS:
             if not self.kinds.get(k):
                 m.append("statement kind " + k)
@@ -282,7 +297,8 @@ def _run(ctx, pool):
         raise vlib.Undecided("%d scenarios were not answered" % len(pending))
 
     # ---- vacuity
-    missing = tally.missing()
+    info = fe.one_request(pool, dict(mode="info"))
+    missing = tally.missing({v.upper() for v in info["kinds"].values()})
     if missing:
         raise vlib.Undecided("vacuous: the enumerated statements never used: " + "; ".join(missing))
     if stats["trailing_scenarios"] == 0:
